@@ -345,8 +345,13 @@ def attributed(r, f):
     """properties a failing clause speaks about (None = every property the unit serves)."""
     from units import registry
     spec = (registry.VERUS if r["backend"] == "verus" else registry.KANI).get(r["unit"], {})
+    # match on the failing clause itself (for postconditions the "site" is the whole body and would
+    # match everything); asserts and preconditions without clause text fall back to the site
+    text = f.get("clause") or f.get("site") or f.get("sig", "")
+    if f.get("clause") and "precondition" in f.get("message", ""):
+        text = f["clause"]
     for (rx, props) in spec.get("attribution", []):
-        if re.search(rx, f.get("sig", "")):
+        if re.search(rx, text):
             return props
     return None
 
